@@ -12,6 +12,14 @@
 (*   W5 the code ends with opret and starts with an opscope                  *)
 (*   W6 a callrec targets the opscope of the innermost function whose body    *)
 (*      contains it (functions nest as scope ... ret): it is a SELF call       *)
+(*   W7 stack discipline: inside every function (scope ... ret) the height of  *)
+(*      the data stack relative to the function's entry is the same on every   *)
+(*      control-flow path reaching an instruction (fall through, jump,         *)
+(*      jumpifnot, the resumption points of the fork instructions), and it is  *)
+(*      0 at the function's ret.  A rewrite that is only valid when an          *)
+(*      instruction is reached from its textual predecessor (the peephole       *)
+(*      fusions of optimizeCodeOps) breaks this at a join point even when no    *)
+(*      output shows it.                                                       *)
 (* CodeWF(code) is the sequence of violated rules (with the pc), empty = ok. *)
 (***************************************************************************)
 EXTENDS Integers, Sequences, FiniteSets
@@ -45,7 +53,38 @@ CodeWF(code) ==
                      ELSE <<IF Len(st) > 0 THEN st[1] ELSE 0>> \o Encl(i + 1, st)
       encl == Encl(1, <<>>)
       W6(i) == IF code[i].op = "callrec" /\ Target(i) >= 1 /\ Target(i) <= N /\ encl[i] # Target(i) THEN <<[rule |-> "W6", pc |-> i - 1]>> ELSE <<>>
+      \* W7: heights[i] = set of relative stack heights with which instruction i can be reached
+      Eff(i) == LET c == code[i] IN
+                CASE c.op \in {"push", "dup", "load", "pushpc"} -> 1
+                  [] c.op \in {"pop", "store", "append", "jumpifnot", "callpc", "pathend"} -> -1
+                  [] c.op = "object" -> 1 - 2 * c.v.n
+                  [] c.op = "call" /\ HasF(c.v, "argc") /\ ~HasF(c.v, "n") -> 0 - c.v.argc                       \* native: input and arguments replaced by the result
+                  [] c.op = "call" /\ HasF(c.v, "n") /\ Target(i) >= 1 /\ Target(i) <= N /\ code[Target(i)].op = "scope" -> 0 - code[Target(i)].v.argc
+                                                                                                              \* function: input and closures replaced by the output
+                  [] OTHER -> 0
+      Succs(i) == LET c == code[i]  t == Target(i) IN            \* successor pcs inside the same function
+                  CASE c.op \in {"ret", "backtrack", "callrec"} -> {}
+                    [] c.op = "call" /\ HasF(c.v, "native") /\ c.v.native = "_break" -> {}       \* always raises
+                    [] c.op = "jump" -> {t}
+                    [] c.op \in {"jumpifnot", "fork", "forktrybegin", "forkalt"} -> {i + 1, t}
+                    [] OTHER -> {i + 1}
+      \* the resumption point of a fork is entered with the height the fork instruction saw, the others with height + effect
+      Out(i, h, j) == IF code[i].op \in {"fork", "forktrybegin", "forkalt"} THEN h ELSE h + Eff(i)
+      Start == [i \in 1..N |-> IF code[i].op = "scope" THEN {0} ELSE {}]
+      preds == [j \in 1..N |-> IF code[j].op = "scope" THEN {} ELSE {k \in 1..N : j \in Succs(k)}]
+      Cap(S) == {h \in S : h >= -64 /\ h <= 64}
+      \* one sweep in pc order (forward edges settle in a single sweep), repeated until nothing changes (backward jumps)
+      RECURSIVE Sweep(_, _)
+      Sweep(H, j) == IF j > N THEN H
+                     ELSE LET new == UNION {{Out(i, h, j) : h \in H[i]} : i \in preds[j]} IN
+                          Sweep(IF new \subseteq H[j] THEN H ELSE [H EXCEPT ![j] = Cap(H[j] \cup new)], j + 1)
+      RECURSIVE Fix(_, _)
+      Fix(H, fuel) == LET H2 == Sweep(H, 1) IN IF H2 = H \/ fuel = 0 THEN H ELSE Fix(H2, fuel - 1)
+      heights == IF \A i \in 1..N : Target(i) <= N /\ (code[i].op = "object" => HasF(code[i].v, "n")) THEN Fix(Start, 40) ELSE Start
+      W7(i) == IF Cardinality(heights[i]) > 1 THEN <<[rule |-> "W7", pc |-> i - 1]>>
+               ELSE IF code[i].op = "ret" /\ heights[i] # {} /\ encl[i] # 0 /\ heights[i] # {0 - code[encl[i]].v.argc} THEN <<[rule |-> "W7ret", pc |-> i - 1]>>
+               ELSE <<>>
       RECURSIVE All(_)
-      All(i) == IF i > N THEN <<>> ELSE Bad(i) \o W6(i) \o All(i + 1)
+      All(i) == IF i > N THEN <<>> ELSE Bad(i) \o W6(i) \o W7(i) \o All(i + 1)
   IN (IF N = 0 \/ code[N].op # "ret" \/ code[1].op \notin {"scope", "store", "push", "jump"} THEN <<[rule |-> "W5", pc |-> 0]>> ELSE <<>>) \o All(1)
 =============================================================================
